@@ -55,7 +55,8 @@ class Engine:
         self.accessible_plugins = PreFilterPlugins(compute_frameworks, plugin_collector).get_accessible_plugins()
         # get links
         LinkValidator.validate_links(links)
-        self.links = links
+        # Links attached to features are added during planning: do not write them into the caller's set.
+        self.links = set(links) if links is not None else None
 
         # set api input collection if relevant
         self.api_input_data_collection = api_input_data_collection
